@@ -421,6 +421,85 @@ func c02Body(d c02Desc, tier string) func() {
 					fail("one write carried %d frames: %q", n, short(string(seg)))
 				}
 			}
+		case "duplex":
+			// full-duplex use of one client connection (ctxio: Write is "not safe for concurrent use with itself", Read
+			// likewise - one writer and one reader at a time are): a goroutine sends while another receives, and the
+			// operation of ONE direction is cancelled while the other direction is in the middle of a frame. Seq[0]:
+			// "wv" the cancelled receive must not cut the frame being sent; "rv" the cancelled Send must not cut the
+			// reply being received. Seq[1]: bytes of the victim frame that are through when the cancellation lands.
+			var k int
+			fmt.Sscanf(d.Seq[1], "%d", &k)
+			peer, mine := vnet.Pipe("ud")
+			conn := varlink.VerifNewConnection(mine)
+			recv, err := conn.Send(live, "t.f.Q", nil, 0)
+			if err != nil {
+				fail("Send Q: %v", err)
+				break
+			}
+			pp := &rawPeer{c: peer}
+			pp.readFrame()
+			qLen := len(peer.Received())
+			if d.Seq[0] == "wv" {
+				mine.Partial, mine.Cap = true, k
+				ctxR := vnet.NewCtx("rx")
+				doneR, doneA := false, false
+				var errA error
+				vsched.GoDaemon("R", func() {
+					var out json.RawMessage
+					recv(ctxR, &out)
+					doneR = true
+				})
+				vsched.GoDaemon("W", func() {
+					_, errA = conn.Send(live, "t.f.A", map[string]string{"a": strings.Repeat("A", 40)}, varlink.Oneway)
+					doneA = true
+				})
+				vsched.Yield("wait-A-midframe", "H", func() bool { return doneA || (peer.Pending() == k && mine.ReadCalls >= 1) })
+				ctxR.Cancel()
+				vsched.Yield("wait-R", "H", func() bool { return doneR })
+				mine.Cap = 0
+				vsched.Yield("wait-A", "H", func() bool { return doneA })
+				_, errB := conn.Send(live, "t.f.B", map[string]string{"b": "B"}, varlink.Oneway)
+				st.cases++
+				wire := peer.Received()[qLen:]
+				if errA != nil {
+					fail("a Send under a live context failed (%v) because a receive on the same connection was cancelled; wire after it: %q", errA, short(string(wire)))
+				}
+				if errB != nil {
+					fail("Send B: %v", errB)
+				}
+				if n, p := streamOK(wire); p != "" || n != 2 {
+					fail("client -> service after a cancelled receive during a Send: %d frames, %s: %q", n, p, short(string(wire)))
+				}
+			} else {
+				reply := `{"parameters":{"id":"r","p":"` + strings.Repeat("p", 30) + `"}}` + "\x00"
+				peer.Write([]byte(reply[:k]))
+				doneR, doneW := false, false
+				var errR error
+				var out struct {
+					ID string `json:"id"`
+					P  string `json:"p"`
+				}
+				vsched.GoDaemon("R", func() {
+					_, errR = recv(live, &out)
+					doneR = true
+				})
+				vsched.Yield("wait-R-midframe", "H", func() bool { return doneR || (mine.Pending() == 0 && mine.ReadCalls >= 2) })
+				mine.Cap = -1
+				ctxW := vnet.NewCtx("tx")
+				vsched.GoDaemon("W", func() {
+					conn.Send(ctxW, "t.f.A", map[string]string{"a": "A"}, varlink.Oneway)
+					doneW = true
+				})
+				vsched.Yield("wait-W-stuck", "H", func() bool { return doneW || mine.WriteCalls >= 2 })
+				ctxW.Cancel()
+				vsched.Yield("wait-W", "H", func() bool { return doneW })
+				peer.Write([]byte(reply[k:]))
+				vsched.Yield("wait-R", "H", func() bool { return doneR })
+				st.cases++
+				if errR != nil || out.ID != "r" || len(out.P) != 30 {
+					fail("service -> client: a reply that arrived in two segments (%d + %d bytes) was received as id=%q p=%d bytes err=%v because a Send on the same connection was cancelled between the segments", k, len(reply)-k, out.ID, len(out.P), errR)
+				}
+			}
 		case "emit2s", "emit2c":
 			// two connections of one process emit at the same time: the first message is stuck in a blocked
 			// write (the peer does not read) while the second one is encoded and sent; then the first drains
@@ -699,6 +778,12 @@ func scenariosC02(tier string) []Scen {
 	for _, stall := range []string{"stalled", "free"} {
 		for _, cause := range []string{"cancel", "deadline"} {
 			d := c02Desc{Kind: "emitfail", Seq: []string{stall, cause}}
+			out = append(out, Scen{Desc: d, Bound: 2, Body: c02Body(d, tier), Check: c02Check, Obs: c02Obs, Cases: c02Cases})
+		}
+	}
+	for _, k := range []string{"1", "7", "30", "60"} {
+		for _, v := range []string{"wv", "rv"} {
+			d := c02Desc{Kind: "duplex", Seq: []string{v, k}}
 			out = append(out, Scen{Desc: d, Bound: 2, Body: c02Body(d, tier), Check: c02Check, Obs: c02Obs, Cases: c02Cases})
 		}
 	}
